@@ -67,6 +67,7 @@ structure ECore (s : State) : Prop where
   e5 : hasMemo s.eff = false → s.eChan = true → s.eDirty = true
   e6 : hasMemo s.eff = false → s.stolen = false
   e7 : s.eSubM = true → hasMemo s.eff = true ∧ hasEffect s.eff = true
+  e8 : s.eSubD = true → hasEffect s.eff = true
 
 /-- no lost wake-up for the effect's task -/
 structure EWake (s : State) : Prop where
@@ -116,20 +117,549 @@ structure Mid (s : State) : Prop where
   ew : EWake s
 
 macro "inv_cases" : tactic =>
-  `(tactic| (refine ⟨⟨?_, ?_, ?_, ?_, ?_⟩, ⟨?_, ?_, ?_, ?_, ?_⟩, ⟨?_, ?_, ?_, ?_, ?_, ?_⟩, ⟨?_, ?_, ?_⟩⟩))
+  `(tactic| (refine ⟨⟨?_, ?_, ?_, ?_, ?_⟩, ⟨?_, ?_, ?_, ?_, ?_⟩, ⟨?_, ?_, ?_, ?_, ?_, ?_, ?_⟩, ⟨?_, ?_, ?_⟩⟩))
 
 theorem Inv.init (c : Cfg) : Inv (init c) := by
   unfold Async.init
   inv_cases <;> simp [lastSeen, hasEffect, hasMemo] <;> (cases c.eff <;> simp)
 
-theorem Inv.dMarkDirty {s : State} (h : Inv s) : Inv (dMarkDirty s) := by
-  obtain ⟨⟨r1, r2, r7, m1, aw⟩, ⟨r3, r4, r5, r6, fresh⟩, ⟨e1, e2, e3, e5, e6, e7⟩, ⟨w1, w2, w3⟩⟩ := h
+theorem Inv.dMarkDirtySrc {s : State} (h : Inv s) (x : List Val) :
+    Inv (Async.dMarkDirty { s with src := x }) := by
+  obtain ⟨⟨r1, r2, r7, m1, aw⟩, ⟨r3, r4, r5, r6, fresh⟩, ⟨e1, e2, e3, e5, e6, e7, e8⟩, ⟨w1, w2, w3⟩⟩ := h
   unfold Async.dMarkDirty dNotify
   inv_cases <;> (simp only [lastSeen] at *; split <;> try split) <;> simp_all
 
+theorem Inv.dMarkDirty {s : State} (h : Inv s) : Inv (Async.dMarkDirty s) := h.dMarkDirtySrc s.src
+
 theorem Inv.mMarkDirty {s : State} (h : Inv s) : Inv (mMarkDirty s) := by
-  obtain ⟨⟨r1, r2, r7, m1, aw⟩, ⟨r3, r4, r5, r6, fresh⟩, ⟨e1, e2, e3, e5, e6, e7⟩, ⟨w1, w2, w3⟩⟩ := h
+  obtain ⟨⟨r1, r2, r7, m1, aw⟩, ⟨r3, r4, r5, r6, fresh⟩, ⟨e1, e2, e3, e5, e6, e7, e8⟩, ⟨w1, w2, w3⟩⟩ := h
   unfold Async.mMarkDirty eMarkCheck eNotify
   inv_cases <;> (simp only [lastSeen] at *; (try split) <;> try split) <;> simp_all <;> grind
 
+theorem Inv.setSrc {s : State} (h : Inv s) (i : Nat) (v : Val) : Inv (setSrc s i v) := by
+  unfold Async.setSrc
+  split
+  · have h1 := h.dMarkDirtySrc (setAt s.src i v)
+    simp only
+    split
+    · exact h1.mMarkDirty
+    · exact h1
+  · exact h
+
+theorem Inv.complete {s : State} (h : Inv s) (f : Nat) : Inv (complete s f) := by
+  obtain ⟨⟨r1, r2, r7, m1, aw⟩, ⟨r3, r4, r5, r6, fresh⟩, ⟨e1, e2, e3, e5, e6, e7, e8⟩, ⟨w1, w2, w3⟩⟩ := h
+  unfold Async.complete
+  inv_cases <;> (simp only [lastSeen] at *; split) <;> simp_all <;> grind
+
+theorem Inv.attach {s : State} (h : Inv s) : Inv { s with aws := s.aws ++ [{}] } := by
+  obtain ⟨⟨r1, r2, r7, m1, aw⟩, ⟨r3, r4, r5, r6, fresh⟩, ⟨e1, e2, e3, e5, e6, e7, e8⟩, ⟨w1, w2, w3⟩⟩ := h
+  inv_cases <;> simp_all [lastSeen]
+  intro a ha
+  rcases ha with ha | ha
+  · exact aw a ha
+  · subst ha; simp [AwOK]
+
+theorem Inv.pollA {s : State} (h : Inv s) (i : Nat) : Inv (pollA s i) := by
+  obtain ⟨⟨r1, r2, r7, m1, aw⟩, ⟨r3, r4, r5, r6, fresh⟩, ⟨e1, e2, e3, e5, e6, e7, e8⟩, ⟨w1, w2, w3⟩⟩ := h
+  unfold Async.pollA
+  inv_cases <;> simp_all [lastSeen]
+  exact awAll_poll aw r7
+
+/-! ## `notify_subs` -/
+
+macro "ns_frame" : tactic =>
+  `(tactic| first | (simp only [notifySubs, eMarkDirty, eNotify]; done)
+                   | (simp only [notifySubs, eMarkDirty, eNotify]; (repeat' split) <;> simp_all))
+
+@[simp] theorem notifySubs_pc (s : State) : (notifySubs s).pc = s.pc := by ns_frame
+@[simp] theorem notifySubs_chan (s : State) : (notifySubs s).chan = s.chan := by ns_frame
+@[simp] theorem notifySubs_reg (s : State) : (notifySubs s).reg = s.reg := by ns_frame
+@[simp] theorem notifySubs_dWoken (s : State) : (notifySubs s).dWoken = s.dWoken := by ns_frame
+@[simp] theorem notifySubs_firstRun (s : State) : (notifySubs s).firstRun = s.firstRun := by ns_frame
+@[simp] theorem notifySubs_initialFut (s : State) : (notifySubs s).initialFut = s.initialFut := by ns_frame
+@[simp] theorem notifySubs_curStatus (s : State) : (notifySubs s).curStatus = s.curStatus := by ns_frame
+@[simp] theorem notifySubs_curInputs (s : State) : (notifySubs s).curInputs = s.curInputs := by ns_frame
+@[simp] theorem notifySubs_version (s : State) : (notifySubs s).version = s.version := by ns_frame
+@[simp] theorem notifySubs_fetchVersion (s : State) : (notifySubs s).fetchVersion = s.fetchVersion := by ns_frame
+@[simp] theorem notifySubs_nf (s : State) : (notifySubs s).nf = s.nf := by ns_frame
+@[simp] theorem notifySubs_stolen (s : State) : (notifySubs s).stolen = s.stolen := by ns_frame
+@[simp] theorem notifySubs_dstate (s : State) : (notifySubs s).dstate = s.dstate := by ns_frame
+@[simp] theorem notifySubs_value (s : State) : (notifySubs s).value = s.value := by ns_frame
+@[simp] theorem notifySubs_manualLive (s : State) : (notifySubs s).manualLive = s.manualLive := by ns_frame
+@[simp] theorem notifySubs_lastManual (s : State) : (notifySubs s).lastManual = s.lastManual := by ns_frame
+@[simp] theorem notifySubs_src (s : State) : (notifySubs s).src = s.src := by ns_frame
+@[simp] theorem notifySubs_eff (s : State) : (notifySubs s).eff = s.eff := by ns_frame
+@[simp] theorem notifySubs_loading (s : State) : (notifySubs s).loading = false := by ns_frame
+@[simp] theorem notifySubs_aws (s : State) : (notifySubs s).aws = s.aws.map wakeAw := by ns_frame
+@[simp] theorem notifySubs_eLog (s : State) : (notifySubs s).eLog = s.eLog := by ns_frame
+@[simp] theorem notifySubs_eFirst (s : State) : (notifySubs s).eFirst = s.eFirst := by ns_frame
+@[simp] theorem notifySubs_eSubD (s : State) : (notifySubs s).eSubD = s.eSubD := by ns_frame
+@[simp] theorem notifySubs_eSubM (s : State) : (notifySubs s).eSubM = s.eSubM := by ns_frame
+@[simp] theorem notifySubs_notifs (s : State) : (notifySubs s).notifs = s.notifs + 1 := by ns_frame
+
+@[simp] theorem notifySubs_eDirty (s : State) : (notifySubs s).eDirty = (s.eSubD || s.eDirty) := by ns_frame
+@[simp] theorem notifySubs_eChan (s : State) : (notifySubs s).eChan = (s.eSubD || s.eChan) := by ns_frame
+@[simp] theorem notifySubs_eWoken (s : State) : (notifySubs s).eWoken = (s.eWoken || (s.eSubD && s.eReg)) := by ns_frame
+@[simp] theorem notifySubs_eReg (s : State) : (notifySubs s).eReg = (s.eReg && !s.eSubD) := by ns_frame
+
+/-- what `notify_subs` needs of the effect (the value may just have changed) and what it gives back -/
+theorem notifySubs_effect {s : State}
+    (e1 : hasEffect s.eff = true → s.eFirst = true → s.eChan = true ∧ s.eSubD = false)
+    (e2 : hasEffect s.eff = true → s.eFirst = false → s.eSubD = true)
+    (e3 : s.eDirty = true → s.eChan = true)
+    (e5 : hasMemo s.eff = false → s.eChan = true → s.eDirty = true)
+    (e6 : hasMemo s.eff = false → s.stolen = false)
+    (e7 : s.eSubM = true → hasMemo s.eff = true ∧ hasEffect s.eff = true)
+    (e8 : s.eSubD = true → hasEffect s.eff = true)
+    (ew : EWake s) : ECore (notifySubs s) ∧ EWake (notifySubs s) := by
+  obtain ⟨w1, w2, w3⟩ := ew
+  refine ⟨⟨?_, ?_, ?_, ?_, ?_, ?_, ?_⟩, ⟨?_, ?_, ?_⟩⟩ <;> simp [lastSeen] <;> grind
+
+theorem notifySubs_dcore {s : State} (r1 : s.dstate ≠ .notifying) (r2 : s.dstate = .dirty → s.chan = true)
+    (hv : s.value ≠ none) (m1 : s.manualLive = true → s.value = s.lastManual)
+    (aw : ∀ a ∈ s.aws, AwOK s.loading a) : DCore (notifySubs s) := by
+  refine ⟨?_, ?_, ?_, ?_, ?_⟩ <;> simp_all
+  intro a ha
+  exact (aw a ha).wake
+
+theorem Inv.manualSet {s : State} (h : Inv s) (v : Val) : Inv (manualSet s v) := by
+  obtain ⟨⟨r1, r2, r7, m1, aw⟩, ⟨r3, r4, r5, r6, fresh⟩, ⟨e1, e2, e3, e5, e6, e7, e8⟩, ew⟩ := h
+  unfold Async.manualSet
+  have hc := notifySubs_dcore (s := { s with value := some v, manualLive := true, lastManual := some v })
+    r1 r2 (by simp) (by simp) aw
+  have he := notifySubs_effect (s := { s with value := some v, manualLive := true, lastManual := some v })
+    e1 (fun a b => (e2 a b).1) e3 e5 e6 e7 e8 ⟨ew.w1, ew.w2, ew.w3⟩
+  refine ⟨hc, ⟨?_, ?_, ?_, ?_, ?_⟩, he.1, he.2⟩ <;> simp_all
+
+theorem applyResult_mid {s : State} (dc : DCore s) (ec : ECore s) (ew : EWake s)
+    (hv : s.version = s.fetchVersion) (hf : s.firstRun = false) (hi : s.initialFut = false)
+    (hfr : s.stolen = false → s.dstate = .clean → s.curInputs = s.src) : Mid (applyResult s) := by
+  obtain ⟨r1, r2, r7, m1, aw⟩ := dc
+  obtain ⟨e1, e2, e3, e5, e6, e7, e8⟩ := ec
+  dsimp only [applyResult]
+  rw [if_pos hv]
+  have hc := notifySubs_dcore
+    (s := { s with curStatus := .done, pc := .waiting, value := some (fetchFn s.curInputs), manualLive := false })
+    r1 r2 (by simp) (by simp) aw
+  have he := notifySubs_effect
+    (s := { s with curStatus := .done, pc := .waiting, value := some (fetchFn s.curInputs), manualLive := false })
+    e1 (fun a b => (e2 a b).1) e3 e5 e6 e7 e8 ⟨ew.w1, ew.w2, ew.w3⟩
+  refine ⟨hc, ⟨?_, ?_, ?_⟩, he.1, he.2⟩ <;> simp_all
+
+@[simp] theorem applyResult_chan (s : State) : (applyResult s).chan = s.chan := by
+  simp only [applyResult]; split <;> simp
+@[simp] theorem applyResult_firstRun (s : State) : (applyResult s).firstRun = s.firstRun := by
+  simp only [applyResult]; split <;> simp
+@[simp] theorem applyResult_dWoken (s : State) : (applyResult s).dWoken = s.dWoken := by
+  simp only [applyResult]; split <;> simp
+
+/-! ## the derived's task -/
+
+/-- the state in which `fut.await` is reached -/
+def fetchState (s : State) : State := startFetch (dUpdateOwn { s with reg := true, chan := false })
+
+theorem dIter_def (s : State) : dIter s =
+    if s.chan = false then ({ s with reg := true }, false)
+    else if s.dstate = .dirty ∨ s.firstRun = true then
+      (if (fetchState s).curStatus = .ready then (applyResult (fetchState s), true) else (fetchState s, false))
+    else ({ s with reg := true, chan := false }, true) := by
+  simp only [dIter, fetchState, dUpdateOwn]
+  split
+  · rfl
+  · by_cases hd : s.dstate = .dirty <;> simp [hd]
+
+theorem fetchState_chan (s : State) : (fetchState s).chan = false := by
+  simp only [fetchState, startFetch, dUpdateOwn]; (repeat' split) <;> rfl
+theorem fetchState_firstRun (s : State) : (fetchState s).firstRun = false := by
+  simp only [fetchState, startFetch, dUpdateOwn]
+theorem fetchState_initialFut (s : State) : (fetchState s).initialFut = false := by
+  simp only [fetchState, startFetch, dUpdateOwn]; (repeat' split) <;> simp_all
+theorem fetchState_version (s : State) : (fetchState s).version = (fetchState s).fetchVersion := by
+  simp only [fetchState, startFetch, dUpdateOwn]
+theorem fetchState_pc (s : State) : (fetchState s).pc = .fetching := by
+  simp only [fetchState, startFetch, dUpdateOwn]
+
+theorem dIter_cont_chan (s : State) (h : (dIter s).2 = true) : (dIter s).1.chan = false := by
+  rw [dIter_def] at h ⊢
+  split at h
+  · simp at h
+  · split at h
+    · split at h
+      · simp [*, fetchState_chan]
+      · simp at h
+    · simp [*]
+
+theorem dLoop_eq (n : Nat) (s : State) :
+    dLoop (n + 2) s = if (dIter s).2 then (dIter (dIter s).1).1 else (dIter s).1 := by
+  rw [dLoop]
+  split
+  · rename_i h
+    have hc := dIter_cont_chan s h
+    rw [dLoop, dIter_def (dIter s).1]
+    simp [hc]
+  · rfl
+
+theorem Mid.toFetch {s : State} (h : Mid s) (hn : s.dstate = .dirty ∨ s.firstRun = true) :
+    DCore (fetchState s) ∧ ECore (fetchState s) ∧ EWake (fetchState s) ∧
+    ((fetchState s).curStatus = .pending ∨ (fetchState s).curStatus = .ready) ∧
+    ((fetchState s).stolen = false → (fetchState s).dstate = .clean →
+      (fetchState s).curInputs = (fetchState s).src) := by
+  obtain ⟨⟨r1, r2, r7, m1, aw⟩, ⟨pcw, f1, f2⟩, ⟨e1, e2, e3, e5, e6, e7, e8⟩, ⟨w1, w2, w3⟩⟩ := h
+  have aw' : ∀ a ∈ s.aws, AwOK true a := fun a ha => (aw a ha).loading
+  refine ⟨⟨?_, ?_, ?_, ?_, ?_⟩, ⟨?_, ?_, ?_, ?_, ?_, ?_, ?_⟩, ⟨?_, ?_, ?_⟩, ?_, ?_⟩ <;>
+    (simp only [fetchState, startFetch, dUpdateOwn, lastSeen] at *; (repeat' split)) <;> simp_all <;> grind
+
+
+theorem Mid.iter {s : State} (h : Mid s) :
+    ((dIter s).2 = false → Inv (dIter s).1) ∧
+    ((dIter s).2 = true → Mid (dIter s).1 ∧ (dIter s).1.chan = false ∧ (dIter s).1.firstRun = false) := by
+  rw [dIter_def]
+  by_cases hc : s.chan = false
+  · -- nothing to do: back to sleep with the waker registered
+    rw [if_pos hc]
+    refine ⟨fun _ => ?_, fun hh => by simp at hh⟩
+    show Inv { s with reg := true }
+    obtain ⟨⟨r1, r2, r7, m1, aw⟩, ⟨pcw, f1, f2⟩, ⟨e1, e2, e3, e5, e6, e7, e8⟩, ⟨w1, w2, w3⟩⟩ := h
+    inv_cases <;> simp_all [lastSeen]
+  · rw [if_neg hc]
+    by_cases hn : s.dstate = .dirty ∨ s.firstRun = true
+    · rw [if_pos hn]
+      obtain ⟨dc, ec, ew, hst, hfr⟩ := h.toFetch hn
+      by_cases hr : (fetchState s).curStatus = .ready
+      · rw [if_pos hr]
+        refine ⟨fun hh => by simp at hh, fun _ => ?_⟩
+        exact ⟨applyResult_mid dc ec ew (fetchState_version s) (fetchState_firstRun s)
+          (fetchState_initialFut s) hfr, by simp [fetchState_chan], by simp [fetchState_firstRun]⟩
+      · rw [if_neg hr]
+        refine ⟨fun _ => ?_, fun hh => by simp at hh⟩
+        show Inv (fetchState s)
+        refine ⟨dc, ⟨?_, ?_, ?_, ?_, ?_⟩, ec, ew⟩ <;>
+          simp_all [fetchState_pc, fetchState_firstRun, fetchState_initialFut, fetchState_version]
+    · rw [if_neg hn]
+      refine ⟨fun hh => by simp at hh, fun _ => ?_⟩
+      show Mid { s with reg := true, chan := false } ∧ _
+      obtain ⟨⟨r1, r2, r7, m1, aw⟩, ⟨pcw, f1, f2⟩, ⟨e1, e2, e3, e5, e6, e7, e8⟩, ⟨w1, w2, w3⟩⟩ := h
+      refine ⟨⟨⟨?_, ?_, ?_, ?_, ?_⟩, ⟨?_, ?_, ?_⟩, ⟨?_, ?_, ?_, ?_, ?_, ?_, ?_⟩, ⟨?_, ?_, ?_⟩⟩, ?_, ?_⟩ <;>
+        simp_all [lastSeen]
+
+/-- entering the loop and running it to the next suspension point re-establishes the invariant -/
+theorem Mid.loop {s : State} (h : Mid s) : Inv (dLoop 3 s) := by
+  rw [dLoop_eq]
+  obtain ⟨h0, h1⟩ := h.iter
+  split
+  · rename_i hc
+    obtain ⟨hm, hch, _⟩ := h1 hc
+    have h2 := hm.iter.1
+    rw [dIter_def, if_pos hch] at h2 ⊢
+    exact h2 rfl
+  · rename_i hc
+    exact h0 (by simpa using hc)
+
+theorem Inv.pollD {s : State} (h : Inv s) : Inv (pollD s) := by
+  unfold Async.pollD
+  obtain ⟨⟨r1, r2, r7, m1, aw⟩, ⟨r3, r4, r5, r6, fresh⟩, ⟨e1, e2, e3, e5, e6, e7, e8⟩, ⟨w1, w2, w3⟩⟩ := h
+  dsimp only
+  split
+  · -- first poll
+    rename_i hpc
+    apply Mid.loop
+    refine ⟨⟨?_, ?_, ?_, ?_, ?_⟩, ⟨?_, ?_, ?_⟩, ⟨?_, ?_, ?_, ?_, ?_, ?_, ?_⟩, ⟨?_, ?_, ?_⟩⟩ <;>
+      (simp only [lastSeen] at *; (try split)) <;> simp_all
+  · rename_i hpc
+    apply Mid.loop
+    refine ⟨⟨?_, ?_, ?_, ?_, ?_⟩, ⟨?_, ?_, ?_⟩, ⟨?_, ?_, ?_, ?_, ?_, ?_, ?_⟩, ⟨?_, ?_, ?_⟩⟩ <;>
+      simp_all [lastSeen]
+  · rename_i hpc
+    split
+    · apply Mid.loop
+      apply applyResult_mid
+      · exact ⟨r1, r2, r7, m1, aw⟩
+      · exact ⟨e1, e2, e3, e5, e6, e7, e8⟩
+      · exact ⟨w1, w2, w3⟩
+      all_goals simp_all
+    · inv_cases <;> simp_all [lastSeen]
+
+/-! ## the effect's task -/
+
+/-- what the effect's check phase (`update_if_necessary` over its sources) can change: the memo, and —
+when it reaches the derived while that is `Dirty` — the derived's state, which it resets to `Clean` -/
+structure Frame (s s' : State) : Prop where
+  eff : s'.eff = s.eff
+  src : s'.src = s.src
+  value : s'.value = s.value
+  loading : s'.loading = s.loading
+  version : s'.version = s.version
+  chan : s'.chan = s.chan
+  reg : s'.reg = s.reg
+  dWoken : s'.dWoken = s.dWoken
+  pc : s'.pc = s.pc
+  firstRun : s'.firstRun = s.firstRun
+  initialFut : s'.initialFut = s.initialFut
+  fetchVersion : s'.fetchVersion = s.fetchVersion
+  curInputs : s'.curInputs = s.curInputs
+  curStatus : s'.curStatus = s.curStatus
+  eDirty : s'.eDirty = s.eDirty
+  eChan : s'.eChan = s.eChan
+  eReg : s'.eReg = s.eReg
+  eWoken : s'.eWoken = s.eWoken
+  eFirst : s'.eFirst = s.eFirst
+  eSubD : s'.eSubD = s.eSubD
+  eSubM : s'.eSubM = s.eSubM
+  eLog : s'.eLog = s.eLog
+  aws : s'.aws = s.aws
+  manualLive : s'.manualLive = s.manualLive
+  lastManual : s'.lastManual = s.lastManual
+  notifs : s'.notifs = s.notifs
+  ds : (s'.dstate = s.dstate ∧ s'.stolen = s.stolen) ∨
+       (s.dstate = .dirty ∧ s'.dstate = .clean ∧ s'.stolen = true)
+
+theorem Frame.refl (s : State) : Frame s s := by
+  constructor <;> simp
+
+theorem Frame.trans {a b c : State} (h1 : Frame a b) (h2 : Frame b c) : Frame a c := by
+  obtain ⟨_, _, _, _, _, _, _, _, _, _, _, _, _, _, _, _, _, _, _, _, _, _, _, _, _, _, d1⟩ := h1
+  obtain ⟨_, _, _, _, _, _, _, _, _, _, _, _, _, _, _, _, _, _, _, _, _, _, _, _, _, _, d2⟩ := h2
+  constructor <;> simp_all
+  rcases d1 with d1 | d1 <;> rcases d2 with d2 | d2 <;> simp_all
+
+theorem Frame.dAsSource (s : State) : Frame s (dAsSource s).1 := by
+  unfold Async.dAsSource
+  split
+  · constructor <;> simp_all
+  · exact Frame.refl s
+
+theorem Frame.memoUpdate (s : State) : Frame s (memoUpdate s).1 := by
+  unfold Async.memoUpdate
+  split <;> constructor <;> simp
+
+theorem Frame.effAny (l : List Src) (s : State) : Frame s (effAny l s).1 := by
+  induction l generalizing s with
+  | nil => exact Frame.refl s
+  | cons x rest ih =>
+    cases x
+    · simp only [Async.effAny]
+      split
+      · exact Frame.dAsSource s
+      · exact (Frame.dAsSource s).trans (ih _)
+    · simp only [Async.effAny]
+      split
+      · exact Frame.memoUpdate s
+      · exact (Frame.memoUpdate s).trans (ih _)
+
+
+theorem hasEffect_of_hasMemo (k : EffKind) : hasMemo k = true → hasEffect k = true := by
+  cases k <;> simp [hasMemo, hasEffect]
+
+theorem runEffect_spec (s : State) : ∃ (ms : MState) (mv : Option Val) (mr : Bool) (x : Option Val),
+    runEffect s = { s with eFirst := false, eSubD := hasEffect s.eff, eSubM := hasMemo s.eff,
+                           mstate := ms, mval := mv, mRan := mr, eLog := s.eLog ++ [(s.value, x)] } := by
+  cases he : s.eff <;>
+    simp only [runEffect, effSources, effRead, memoUpdate, he, List.foldl, hasMemo, hasEffect] <;>
+    (try split) <;> exact ⟨_, _, _, _, rfl⟩
+
+theorem runEffect_inv {s : State} (dc : DCore s) (dr : DRest s)
+    (e6 : hasMemo s.eff = false → s.stolen = false) (hd : s.eDirty = false) (hc : s.eChan = false) :
+    DCore (runEffect s) ∧ DRest (runEffect s) ∧ ECore (runEffect s) ∧ (runEffect s).eChan = false ∧
+    (runEffect s).eWoken = s.eWoken ∧ (runEffect s).eReg = s.eReg ∧ (runEffect s).eFirst = false := by
+  obtain ⟨r1, r2, r7, m1, aw⟩ := dc
+  obtain ⟨r3, r4, r5, r6, fresh⟩ := dr
+  obtain ⟨ms, mv, mr, x, h⟩ := runEffect_spec s
+  rw [h]
+  refine ⟨⟨?_, ?_, ?_, ?_, ?_⟩, ⟨?_, ?_, ?_, ?_, ?_⟩, ⟨?_, ?_, ?_, ?_, ?_, ?_, ?_⟩, ?_, ?_, ?_, ?_⟩ <;>
+    simp_all [lastSeen]
+  exact hasEffect_of_hasMemo _
+
+/-- normal form of one iteration of the effect's loop -/
+theorem eIter_def (s : State) : eIter s =
+    if s.eChan = false then ({ s with eReg := true }, false)
+    else if (effUpdate { s with eReg := true, eChan := false }).2 = true ∨
+            (effUpdate { s with eReg := true, eChan := false }).1.eFirst = true then
+      (runEffect (effUpdate { s with eReg := true, eChan := false }).1, true)
+    else ((effUpdate { s with eReg := true, eChan := false }).1, true) := by
+  simp only [eIter]
+  split
+  · rfl
+  · simp only [Bool.or_eq_true]
+
+/-- the check phase on a state whose channel flag has just been consumed -/
+theorem effUpdate_inv {s : State} (dc : DCore s) (dr : DRest s)
+    (e2 : hasEffect s.eff = true → s.eFirst = false →
+      s.eSubD = true ∧ (s.eDirty = true ∨ lastSeen s = some s.value))
+    (e6 : hasMemo s.eff = false → s.stolen = false)
+    (hm : hasMemo s.eff = false → s.eDirty = true) :
+    DCore (effUpdate s).1 ∧ DRest (effUpdate s).1 ∧ (effUpdate s).1.eDirty = false ∧
+    (effUpdate s).1.eChan = s.eChan ∧ (effUpdate s).1.eWoken = s.eWoken ∧ (effUpdate s).1.eReg = s.eReg ∧
+    (effUpdate s).1.eFirst = s.eFirst ∧ (effUpdate s).1.eff = s.eff ∧
+    (effUpdate s).1.eSubD = s.eSubD ∧ (effUpdate s).1.eSubM = s.eSubM ∧
+    (s.eDirty = true → (effUpdate s).2 = true) ∧
+    (hasMemo s.eff = false → (effUpdate s).1.stolen = false) ∧
+    (s.eDirty = false → hasEffect s.eff = true → s.eFirst = false →
+      lastSeen (effUpdate s).1 = some (effUpdate s).1.value) := by
+  obtain ⟨r1, r2, r7, m1, aw⟩ := dc
+  obtain ⟨r3, r4, r5, r6, fresh⟩ := dr
+  unfold effUpdate
+  by_cases hd : s.eDirty = true
+  · rw [if_pos hd]
+    refine ⟨⟨?_, ?_, ?_, ?_, ?_⟩, ⟨?_, ?_, ?_, ?_, ?_⟩, ?_, ?_, ?_, ?_, ?_, ?_, ?_, ?_, ?_, ?_, ?_⟩ <;>
+      simp_all [lastSeen]
+  · rw [if_neg hd]
+    have hmm : hasMemo s.eff = true := by
+      cases h : hasMemo s.eff
+      · exact absurd (hm h) hd
+      · rfl
+    generalize (if s.eFirst = true then [] else effSources s.eff) = L
+    have hfr := Frame.effAny L s
+    generalize effAny L s = r at *
+    obtain ⟨f1, f2, f3, f4, f5, f6, f7, f8, f9, f10, f11, f12, f13, f14, f15, f16, f17, f18, f19, f20, f21,
+      f22, f23, f24, f25, f26, fds⟩ := hfr
+    refine ⟨⟨?_, ?_, ?_, ?_, ?_⟩, ⟨?_, ?_, ?_, ?_, ?_⟩, ?_, ?_, ?_, ?_, ?_, ?_, ?_, ?_, ?_, ?_, ?_⟩ <;>
+      (rcases fds with fds | fds) <;> simp_all [lastSeen]
+
+theorem effUpdate_eChan (s : State) : (effUpdate s).1.eChan = s.eChan := by
+  unfold effUpdate
+  split
+  · rfl
+  · exact (Frame.effAny _ s).eChan
+
+theorem runEffect_eChan (s : State) : (runEffect s).eChan = s.eChan := by
+  obtain ⟨ms, mv, mr, x, h⟩ := runEffect_spec s
+  rw [h]
+
+theorem eIter_cont_chan (s : State) (h : (eIter s).2 = true) : (eIter s).1.eChan = false := by
+  rw [eIter_def] at h ⊢
+  by_cases hc : s.eChan = false
+  · rw [if_pos hc] at h; simp at h
+  · rw [if_neg hc]
+    split
+    · show (runEffect _).eChan = false
+      rw [runEffect_eChan, effUpdate_eChan]
+    · show (effUpdate _).1.eChan = false
+      rw [effUpdate_eChan]
+
+theorem eLoop_eq (n : Nat) (s : State) :
+    eLoop (n + 2) s = if (eIter s).2 then (eIter (eIter s).1).1 else (eIter s).1 := by
+  rw [eLoop]
+  split
+  · rename_i h
+    have hc := eIter_cont_chan s h
+    rw [eLoop, eIter_def (eIter s).1]
+    simp [hc]
+  · rfl
+
+theorem eIter_inv {s : State} (dc : DCore s) (dr : DRest s) (ec : ECore s) :
+    ((eIter s).2 = false → Inv (eIter s).1) ∧
+    ((eIter s).2 = true → DCore (eIter s).1 ∧ DRest (eIter s).1 ∧ ECore (eIter s).1 ∧
+      (eIter s).1.eChan = false ∧ (eIter s).1.eFirst = false ∧ (eIter s).1.eWoken = s.eWoken) := by
+  rw [eIter_def]
+  by_cases hc : s.eChan = false
+  · rw [if_pos hc]
+    refine ⟨fun _ => ?_, fun hh => by simp at hh⟩
+    show Inv { s with eReg := true }
+    obtain ⟨r1, r2, r7, m1, aw⟩ := dc
+    obtain ⟨r3, r4, r5, r6, fresh⟩ := dr
+    obtain ⟨e1, e2, e3, e5, e6, e7, e8⟩ := ec
+    inv_cases <;> simp_all [lastSeen]
+  · rw [if_neg hc]
+    have hc' : s.eChan = true := by simpa using hc
+    obtain ⟨e1, e2, e3, e5, e6, e7, e8⟩ := ec
+    have hu := effUpdate_inv (s := { s with eReg := true, eChan := false })
+      ⟨dc.r1, dc.r2, dc.r7, dc.m1, dc.aw⟩ ⟨dr.r3, dr.r4, dr.r5, dr.r6, dr.fresh⟩ e2 e6 (fun h => e5 h hc')
+    generalize effUpdate { s with eReg := true, eChan := false } = u at *
+    obtain ⟨udc, udr, ud, uc, uw, ur, uf, ue, usd, usm, udirty, ust, useen⟩ := hu
+    by_cases hrun : u.2 = true ∨ u.1.eFirst = true
+    · rw [if_pos hrun]
+      refine ⟨fun hh => by simp at hh, fun _ => ?_⟩
+      obtain ⟨a, b, c, d, e, f, g⟩ := runEffect_inv udc udr (by simpa [ue] using ust) ud (by simpa using uc)
+      exact ⟨a, b, c, d, g, by simpa [uw] using e⟩
+    · rw [if_neg hrun]
+      refine ⟨fun hh => by simp at hh, fun _ => ?_⟩
+      have h1 : u.2 = false := by
+        cases h : u.2
+        · rfl
+        · exact absurd (.inl h) hrun
+      have h2 : u.1.eFirst = false := by
+        cases h : u.1.eFirst
+        · rfl
+        · exact absurd (.inr h) hrun
+      have h3 : s.eDirty = false := by
+        cases h : s.eDirty
+        · rfl
+        · have := udirty h; simp [h1] at this
+      refine ⟨udc, udr, ⟨?_, ?_, ?_, ?_, ?_, ?_, ?_⟩, ?_, ?_, ?_⟩ <;> simp_all
+
+theorem Inv.pollE {s : State} (h : Inv s) : Inv (pollE s) := by
+  unfold Async.pollE
+  rw [eLoop_eq]
+  obtain ⟨dc, dr, ec, ew⟩ := h
+  have h0 := eIter_inv (s := { s with eWoken := false }) ⟨dc.r1, dc.r2, dc.r7, dc.m1, dc.aw⟩
+    ⟨dr.r3, dr.r4, dr.r5, dr.r6, dr.fresh⟩ ⟨ec.e1, ec.e2, ec.e3, ec.e5, ec.e6, ec.e7, ec.e8⟩
+  split
+  · rename_i hc
+    obtain ⟨a, b, c, d, e, f⟩ := h0.2 hc
+    have h2 := (eIter_inv a b c).1
+    rw [eIter_def, if_pos d] at h2 ⊢
+    exact h2 rfl
+  · rename_i hc
+    exact h0.1 (by simpa using hc)
+
+
+
+/-! ## every event -/
+
+theorem Inv.pollNth {s : State} (h : Inv s) (j : Nat) : Inv (pollNth s j) := by
+  unfold Async.pollNth
+  dsimp only
+  split
+  · rename_i t _
+    cases t
+    · exact h.pollD
+    · exact h.pollE
+    · exact h.pollA _
+  · exact h
+
+theorem Inv.step {s : State} (h : Inv s) (e : Event) : Inv (step s e) := by
+  cases e with
+  | set i v => exact h.setSrc i v
+  | refetch => exact h.dMarkDirty
+  | manualSet v => exact h.manualSet v
+  | complete f => exact h.complete f
+  | attach => exact h.attach
+  | poll j => exact h.pollNth j
+  | get => exact h
+
+theorem Inv.foldl {s : State} (h : Inv s) (es : List Event) : Inv (es.foldl Async.step s) := by
+  induction es generalizing s with
+  | nil => exact h
+  | cons e es ih => exact ih (h.step e)
+
+/-- the invariant holds after every history -/
+theorem Inv.run (c : Cfg) (es : List Event) : Inv (run c es) := (Inv.init c).foldl es
+
+/-! ## the ready list -/
+
+theorem readyAwsFrom_nil {i : Nat} {l : List Aw} (h : readyAwsFrom i l = []) :
+    ∀ a ∈ l, a.woken = true → a.done = true := by
+  induction l generalizing i with
+  | nil => simp
+  | cons a as ih =>
+    simp only [readyAwsFrom] at h
+    split at h
+    · simp at h
+    · rename_i hc
+      intro b hb
+      rcases List.mem_cons.mp hb with rfl | hb
+      · intro hw; cases hd : b.done <;> simp_all
+      · exact ih h b hb
+
+theorem readyList_nil {s : State} (h : readyList s = []) :
+    s.dWoken = false ∧ s.eWoken = false ∧ ∀ a ∈ s.aws, a.woken = true → a.done = true := by
+  unfold readyList at h
+  simp only [List.append_eq_nil_iff] at h
+  obtain ⟨⟨h1, h2⟩, h3⟩ := h
+  refine ⟨?_, ?_, readyAwsFrom_nil h3⟩
+  · cases hd : s.dWoken <;> simp_all
+  · cases hd : s.eWoken <;> simp_all
+
 end Leptos.Async
+
+
